@@ -66,7 +66,8 @@ def recToJson (r : Ids.Rec) : Json :=
 def handlePrepIds (j : Json) : R Json := do
   let allowLong ← boolF j "allow_long"
   let cpus ← natF j "cpus"
-  let inp ← listOf (fun p => do return ((← asChars (← idx p 0)), (← asChars (← idx p 1)))) (← fld j "recs")
+  -- third component: the record's `accession` annotation (C16's model) — the C18 cases carry none
+  let inp ← listOf (fun p => do return ((← asChars (← idx p 0)), (← asChars (← idx p 1)), (none : Option Ids.Str))) (← fld j "recs")
   let model := match Ids.preProcessIds allowLong inp with
     | .ok recs => jObj [("recs", jArr (recs.map recToJson))]
     | .error _ => jObj [("err", Json.str "task")]
